@@ -7,6 +7,7 @@ every other unit assumes."""
 from vlib.unit import Unit, Inst, LEAVES, find_func, clauses_text
 from .common import cs, PRE_GHOST, GUEST_SIZE, HOST_SIZE
 from . import C05
+from . import C17
 
 PROP = 'C03'
 TITLE = 'Every tainted data pointer is null or points into its own sandbox'
@@ -213,6 +214,13 @@ def units(tier):
     for elem in (['int'] if tier == 'quick' else ['int', 'char', 'long', 'double']):
         insts.append(malloc_inst(elem, tier))
     insts += arith_insts(tier)
+    # &(*parr)[i] / &p->arr[i]: element cells of an in-sandbox array stay inside the array object (contract of C17),
+    # hence inside the sandbox whenever the array cell is (cell_inv of the whole array)
+    for idx in (['int', 'unsigned long'] if tier == 'quick' else C17.INDEX_TYPES):
+        it = C17.arr_inst('tainted_volatile', 'long', [4], 'plain', idx, tier)
+        it.name = it.name.replace('c17_', 'c03_elem_')
+        it.prop = PROP
+        insts.append(it)
     insts += backend_insts(tier)
     return [Unit('C03_ptr_invariant', insts)]
 
